@@ -69,7 +69,7 @@ package mobile
 
 // the read itself runs on a reader allocated here; a configured size override is in range (SetApduMaxLe)
 //@ func (r *Reader) ReadDocument
-//@   props C20
+//@   props C20 C12
 //@   requires r != nil && !r.mu.held && r.transceiver != nil && password != nil && password.password != nil
 //@   requires 0 <= r.maxRead && r.maxRead <= 65536 && (r.aaChallenge != nil ==> len(r.aaChallenge) == 8)
 //@   ensures "lock-released": !r.mu.held
@@ -92,7 +92,7 @@ package mobile
 //@   safety all
 
 //@ func (v *Verifier) Verify
-//@   props C20
+//@   props C20 C12
 //@   requires v != nil && !v.mu.held && (v.aaChallenge != nil ==> len(v.aaChallenge) == 8)
 //@   ensures "lock-released": !v.mu.held
 //@   ensures "challenge-untouched": v.aaChallenge == old(v.aaChallenge)
